@@ -144,6 +144,16 @@ register("C20",
          "Trusted: Coq kernel; Model/Valid.v hand-written (tied by differential testing), reusing Model/Graph.v; DuckDB decides 'executes without error'; validate_model / validate_metric / pydantic constraints are exercised (registration must not raise for the generated definitions), not modelled. No axioms.",
          "Coq proof (membership lemmas over the validation function, C10 path-search completeness, string lemma for _cte) + model/implementation correspondence; executed single-field queries", "DESIGN.md section 6/C20")
 
+register("C05",
+         "Machine-checked Coq theorems for SELECT trees with ANY number of fields and filters: every rendering of a structured query -- FROM a model or FROM metrics with model-qualified names, or a single-model query with unqualified names; "
+         "with or without aliases and granularity suffixes; a WHERE conjunction; ORDER BY / LIMIT / OFFSET -- is rewritten to exactly that structured query (C05_qualified, C05_unqualified, C05_where_split, C05_or_kept), after which both paths call the same generator; "
+         "SQL whose FROM names no model passes through (C05_passthrough_*); explicit JOINs, function calls, literals and unknown fields are rejected (C05_reject_*). "
+         "Model/Rewriter.v is hand-written and tied to query_rewriter.py by evaluating it on generated SELECT trees next to the real QueryRewriter on the printed SQL text (extracted metrics / dimensions / aliases / filters / order / limit / offset, or rejection / passthrough). "
+         "The property's own observation is executed: layer.sql(text) rows and column names vs the structured query for seven renderings incl. CTE / sub-select wrapping; passthrough text vs the database. "
+         "Partial: sqlglot's text -> tree step, yardstick syntax, multi-statement input and the CTE / sub-select rewriting are outside the model (exercised end to end). Known finding K1 (unqualified, unselected WHERE column).",
+         "Trusted: Coq kernel; Model/Rewriter.v hand-written (tied by differential testing); sqlglot parser/printer; the harness's SQL printer for the renderings; DuckDB. No axioms.",
+         "Coq proof (induction over projection and filter lists) over a hand-written model of the extraction + model/implementation correspondence; SQL-vs-structured execution oracle", "DESIGN.md section 6/C05")
+
 PENDING = "check not built yet in this revision (see DESIGN.md section 10 build order)"
 
 
